@@ -138,15 +138,15 @@ func init() {
 					" || (fail(op.checkURIAgainstRedirects($client, $uri)) && true($lb) && inloop($reg, $client.RedirectURIs()) && def($ru, op.HTTPLoopbackOrLocalhost($reg), 0) && ok(op.HTTPLoopbackOrLocalhost($reg)) && true(op.equalURI($parsed, $ru)) && def($parsed, op.HTTPLoopbackOrLocalhost($uri), 0))",
 				"def($lb, op.HTTPLoopbackOrLocalhost($uri), 1)"}},
 		{ID: "E1.redirect.native.reject", Fn: "op.validateAuthReqRedirectURINative", P: []string{"client", "uri"}, Kind: "ret fail", Min: 3, Req: []string{"rdErr($r0)"}},
-		{ID: "E7.redirect.equaluri", Fn: "op.equalURI", P: []string{"a", "b"}, Kind: "ret any", Pat: "ret(($a.Path == $b.Path) && ($a.RawQuery == $b.RawQuery))", Max: 1},
+		{ID: "E7.redirect.equaluri", Fn: "op.equalURI", P: []string{"a", "b"}, Kind: "ret any", Pat: "ret(($a.Path == $b.Path) && ($a.RawQuery == $b.RawQuery))", Max: 1, Only: true},
 		{ID: "E7.redirect.equaluri.only", Fn: "op.equalURI", Kind: "ret any", Max: 1},
 		{ID: "E1.redirect.loopback", Fn: "op.HTTPLoopbackOrLocalhost", P: []string{"rawURL"}, Kind: "ret any", Not: "ret(nil, false)", Max: 1,
 			Pat: `ret($p, ($h == "localhost") || net.ParseIP($h).IsLoopback())`,
 			Req: []string{"def($p, url.Parse($rawURL), 0)", "ok(url.Parse($rawURL))", `eq($p.Scheme, "http") || eq($p.Scheme, "https")`, "def($h, $p.Hostname())"}},
-		{ID: "E7.redirect.rd-constructor", Fn: "oidc.init:ErrInvalidRequestRedirectURI$1", Kind: "ret any", Pat: "ret(&Error{redirectDisabled: true})", Max: 1},
-		{ID: "E7.redirect.rd-preserved.desc", Fn: "oidc.(*Error).WithDescription", P: []string{"e"}, Kind: "ret any", Pat: "ret($e)", Max: 1},
-		{ID: "E7.redirect.rd-preserved.parent", Fn: "oidc.(*Error).WithParent", P: []string{"e"}, Kind: "ret any", Pat: "ret($e)", Max: 1},
-		{ID: "E7.redirect.rd-getter", Fn: "oidc.(*Error).IsRedirectDisabled", P: []string{"e"}, Kind: "ret any", Pat: "ret($e.redirectDisabled)", Max: 1},
+		{ID: "E7.redirect.rd-constructor", Fn: "oidc.init:ErrInvalidRequestRedirectURI$1", Kind: "ret any", Pat: "ret(&Error{redirectDisabled: true})", Max: 1, Only: true},
+		{ID: "E7.redirect.rd-preserved.desc", Fn: "oidc.(*Error).WithDescription", P: []string{"e"}, Kind: "ret any", Pat: "ret($e)", Max: 1, Only: true},
+		{ID: "E7.redirect.rd-preserved.parent", Fn: "oidc.(*Error).WithParent", P: []string{"e"}, Kind: "ret any", Pat: "ret($e)", Max: 1, Only: true},
+		{ID: "E7.redirect.rd-getter", Fn: "oidc.(*Error).IsRedirectDisabled", P: []string{"e"}, Kind: "ret any", Pat: "ret($e.redirectDisabled)", Max: 1, Only: true},
 
 		// --- validators: an error that AuthRequestError would redirect arises only after the URI was accepted
 		{ID: "E1.redirect.gerr.client", Fn: "op.ValidateAuthRequestClient", P: []string{"ctx", "authReq", "client", "verifier"}, Kind: "ret fail", Min: 4,
